@@ -36,5 +36,8 @@ def jobs(tier):
         ]
     out += matrix_jobs('C01', 'm1', tier)
     out += matrix_jobs('C01', 'm2', tier)
+    out += mk('C01', 'deep4/await', S.deep4('await'))
+    out += mk('C01', 'deep4/ff', S.deep4('ff'))
+    out += mk('C01', 'deep4/ff/wild_raise', S.deep4('ff', wild_raise=True))
     out += matrix_jobs('C01', 'm3', tier)
     return flat(out)
